@@ -99,7 +99,7 @@ impl Monitor for C16 {
 }
 
 pub fn run(p: &Params) -> Report {
-    let total = p.n(320, 6400);
+    let total = p.n(1200, 30000);
     let mine = p.share(total);
     let mut rng = Rng::new(p.shard_seed() ^ 0xC16);
     let mut mon = C16 { rep: Report::new("C16"), case_seed: 0 };
